@@ -4,17 +4,16 @@ result is used, or ranges over one of the tables whose iteration order the model
 (listed here with the reason). -/
 namespace Tie
 
-/-- map-typed fields whose iteration order cannot be observed, per file (the reason is a theorem of
+/-- map-typed tables whose iteration order cannot be observed, per package (the reason is a theorem of
 `Props/C20.lean` or a sort downstream); a `range` over anything else must be followed by a sort -/
 def orderInsensitive : List (String × String) := [
-  ("api.go", "ChildOptions"),          -- abbreviation candidates: sorted by the caller / resolve_order_independent;
-                                       -- completion candidates: sorted (completion_order_independent)
-  ("api.go", "ChildCommands"),         -- command lookup by exact key; completion candidates sorted
-  ("user.go", "ChildOptions"),         -- copyOptionsFromParent writes distinct keys; checkRequired sorts
-  ("user.go", "ChildCommands"),        -- tree walks: every child is visited, order irrelevant
-  ("user_help.go", "ChildOptions"),    -- help_text_order_independent
-  ("user_help.go", "ChildCommands"),   -- help_text_order_independent; topic lookup by unique name
-  ("dag/dag.go", "Vertices")           -- scheduling choice / any topological order (C13-C16 quantify over it)
+  (".", "ChildOptions"),          -- abbreviation candidates: sorted by the caller / resolve_order_independent;
+                                  -- completion candidates: sorted (completion_order_independent);
+                                  -- copyOptionsFromParent writes distinct keys; checkRequired sorts;
+                                  -- help: help_text_order_independent
+  (".", "ChildCommands"),         -- command lookup by exact key; completion candidates sorted; tree walks visit
+                                  -- every child; help: help_text_order_independent, topic lookup by unique name
+  ("dag", "Vertices")             -- scheduling choice / any topological order (C13-C16 quantify over it)
 ]
 
 def mapOrderOk : Bool :=
@@ -28,8 +27,7 @@ example : (Generated.mapRanges.filter fun r => r.2.1 == "CommandList").all (·.2
 
 /-- no clock, no random source, no unsafe in the modelled packages -/
 def forbiddenImports : List String := ["time", "math/rand", "unsafe", "crypto/rand"]
-example : ((Generated.importsIsOption ++ Generated.importsApi ++ Generated.importsUser ++
-    Generated.importsUserOptions ++ Generated.importsUserHelp ++ Generated.importsOption ++
+example : ((Generated.importsRoot ++ Generated.importsOption ++
     Generated.importsHelp).all fun i => !forbiddenImports.contains i) = true := by decide
 
 end Tie
